@@ -286,3 +286,27 @@ Section Assign.
       apply Hy. unfold elem_end. fold cn. apply (srange_inside k y); [lia|exact Hr].
   Qed.
 End Assign.
+
+(* ---------- field-wise copy assignment between elements (FixedSize / plain lists) ---------- *)
+From Cntgs Require Import Elem.
+Theorem elem_copy_assign_fieldwise_spec L : wf_plist L = true ->
+  forall pocca ae d src ts td fcs fcd junk nb,
+  tuple_ok L fcs 0 ts -> tuple_ok L fcd 0 td -> cnts_of td = cnts_of ts ->
+  elem_holds L src ts -> elem_holds L d td ->
+  (fixed_or_plain L && (negb pocca || ae) && match e_bid d with Some _ => true | None => false end) = true ->
+  let '(d', evs, nb') := elem_copy_assign pocca ae L d src junk nb in
+  elem_holds L d' ts /\ e_bid d' = e_bid d /\ e_units d' = e_units d /\
+  e_aid d' = (if pocca then e_aid src else e_aid d) /\ nb' = nb.
+Proof.
+  intros Hwf pocca ae d src ts td fcs fcd junk nb Hts Htd Hcn [Hes Hfs] [Hed Hfd] Hpath.
+  unfold elem_copy_assign. rewrite Hpath. unfold assign_fl. rewrite Hfs, Hfd.
+  pose proof (ref_assign_copy L Hwf ts td fcs fcd Hts Htd Hcn (e_mem src) (e_mem d) 0 0
+                ltac:(split; [lia|apply Z.divide_0_r]) ltac:(split; [lia|apply Z.divide_0_r]) Hes
+                (bidn (e_bid src)) (bidn (e_bid d))) as H.
+  cbv zeta in H.
+  destruct (assign_all false L (bidn (e_bid src)) (bidn (e_bid d)) (ref_fl L ts 0) (ref_fl L td 0)
+              {| m_s := e_mem src; m_d := e_mem d; m_same := false |} (seq 0 (length L))) as [x evs].
+  cbn [fst] in H. destruct H as (_ & H2 & _).
+  unfold elem_holds. cbn [e_mem e_fl e_bid e_units e_aid]. repeat split; try assumption.
+  unfold ref_fl. rewrite Hcn. reflexivity.
+Qed.
